@@ -8,6 +8,14 @@
             | 'K' mask iface     MIR_link (iface: i = interpreter, g = generator, l = lazy generator,
                                  q = interpreter, but no accessor is executed after this link);
                                  the import resolver resolves name n iff bit n of mask is set
+            | 'J' mask iface { '@' n ans { '+' decl* } }
+                                 MIR_link with a SCRIPTED resolver that loads modules itself (re-entrant
+                                 MIR_load_module during the link): asked for name n (first entry for n) it
+                                 loads the entry's modules (built before MIR_link is called, module numbers
+                                 in script order) and answers ans: '0' = NULL, 'x'a = external a, 'm' = the
+                                 address of the definition of n in the last module it has just loaded
+                                 (NULL if none); names without an entry: as for 'K'.  iface i/g/l/q.
+                                 Resolver log entries are printed as n<n>:<address identity>.
    decl    := 'i'n | 'e'n | 'f'n | 'F'n | 'B'n | 'D'n | 'S'n | 'P'n   import / export / forward / func /
                                                         big func / data / data section of several items
                                                         (named head + anonymous followers) / proto
@@ -237,6 +245,58 @@ static int identify (void *addr, char *out) {
   return 0;
 }
 
+
+/* ---- scripted resolver of the 'J' op: loads modules during the link */
+#define MAXENT 8
+struct sentry {
+  int n, ans, a;          /* name, answer kind ('0', 'x', 'm'), external number */
+  int mods[8], nm;        /* modules to load, in order */
+};
+static struct sentry script[MAXENT];
+static int nscript;
+static MIR_context_t res_ctx;
+
+static void log_answer (int n, void *addr) {
+  char t[64], tag[32];
+  identify (addr, tag);
+  sprintf (t, "%sn%d:%s", res_log[0] ? "," : "", n, tag);
+  if (strlen (res_log) + strlen (t) < sizeof (res_log)) strcat (res_log, t);
+}
+
+static void *resolver_re (const char *name) {
+  int n = atoi (name + 1);
+  void *addr = NULL;
+  if (name[0] != 'n' || n < 0 || n >= MAXN) return NULL;
+  for (int i = 0; i < nscript; i++)
+    if (script[i].n == n) {
+      struct sentry *e = &script[i];
+      for (int j = 0; j < e->nm; j++) {
+        MIR_load_module (res_ctx, mods[e->mods[j]].m); /* a rejection longjmps out of the link */
+        mods[e->mods[j]].state = 1;
+      }
+      if (e->ans == 'x') {
+        addr = ext_addr (e->a);
+      } else if (e->ans == 'm' && e->nm > 0) {
+        struct mod *md = &mods[e->mods[e->nm - 1]];
+        int pos = 0;
+        for (MIR_item_t it = DLIST_HEAD (MIR_item_t, md->m->items); it != NULL && pos < md->nspec;
+             it = DLIST_NEXT (MIR_item_t, it), pos++) {
+          const char *iname = it->item_type == MIR_func_item    ? it->u.func->name
+                              : it->item_type == MIR_data_item  ? it->u.data->name
+                              : it->item_type == MIR_proto_item ? it->u.proto->name
+                                                                : NULL;
+          if (iname != NULL && strcmp (iname, name) == 0) addr = it->addr;
+        }
+      }
+      if (addr != NULL) log_answer (n, addr);
+      return addr;
+    }
+  if (!((res_mask >> n) & 1)) return NULL;
+  addr = ext_addr (100 + n);
+  log_answer (n, addr);
+  return addr;
+}
+
 /* calls an accessor; an error raised underneath (e.g. "undefined call interface" of a function whose
    module was never linked) comes back through call_jmp */
 static int call_acc (MIR_item_t acc, long *v) {
@@ -386,6 +446,84 @@ static int do_op (char *op) {
       print_bindings (1);
     else if (!quiet)
       print_bindings (2);
+    break;
+  }
+  case 'J': {
+    unsigned mask = 0;
+    char iface = 'i';
+    char *save2, *w;
+    int stage = 0; /* 0 mask, 1 iface, 2 expecting '@' or '+', 3 name, 4 answer, 5 decls of a module */
+    char decls[1024];
+    int have_mod = 0;
+    struct sentry *e = NULL;
+    nscript = 0;
+    decls[0] = 0;
+    phase = 1; /* the script's modules are built before the link */
+#define FLUSH_MOD()                                         \
+  do {                                                      \
+    if (have_mod && e != NULL && e->nm < 8 && nmods < MAXMOD) { \
+      int k = nmods;                                        \
+      nmods = k + 1;                                        \
+      build_module (ctx, k, decls);                         \
+      e->mods[e->nm++] = k;                                 \
+    }                                                       \
+    have_mod = 0;                                           \
+    decls[0] = 0;                                           \
+  } while (0)
+    for (w = strtok_r (op + 1, " \t", &save2); w != NULL; w = strtok_r (NULL, " \t", &save2)) {
+      if (stage == 0) {
+        mask = (unsigned) atoi (w);
+        stage = 1;
+      } else if (stage == 1) {
+        iface = w[0];
+        stage = 2;
+      } else if (strcmp (w, "@") == 0) {
+        FLUSH_MOD ();
+        e = NULL;
+        stage = 3;
+      } else if (stage == 3) {
+        if (nscript < MAXENT) {
+          e = &script[nscript++];
+          memset (e, 0, sizeof (*e));
+          e->n = atoi (w);
+        }
+        stage = 4;
+      } else if (stage == 4) {
+        if (e != NULL) {
+          e->ans = w[0];
+          e->a = w[0] == 'x' ? atoi (w + 1) : 0;
+        }
+        stage = 5;
+      } else if (strcmp (w, "+") == 0) {
+        FLUSH_MOD ();
+        have_mod = 1;
+      } else if (have_mod && strlen (decls) + strlen (w) + 2 < sizeof (decls)) {
+        strcat (decls, " ");
+        strcat (decls, w);
+      }
+    }
+    FLUSH_MOD ();
+#undef FLUSH_MOD
+    res_mask = mask;
+    res_log[0] = 0;
+    res_ctx = ctx;
+    int quiet = iface == 'q';
+    if (quiet || iface == 'n') iface = 'i';
+    if (iface != 'i' && !gen_inited) {
+      MIR_gen_init (ctx);
+      gen_inited = 1;
+    }
+    phase = 3;
+    MIR_link (ctx,
+              iface == 'g'   ? MIR_set_gen_interface
+              : iface == 'l' ? MIR_set_lazy_gen_interface
+                             : MIR_set_interp_interface,
+              resolver_re);
+    phase = 0;
+    printf ("ok res=[%s]", res_log);
+    for (int k = 0; k < nmods; k++)
+      if (mods[k].state == 1) mods[k].state = 2;
+    if (!quiet) print_bindings (2);
     break;
   }
   default: printf ("badop"); break;
